@@ -300,6 +300,7 @@ def systematic():
     out += ifself_programs()
     out += forelse_programs()
     out += matrix_row_programs()
+    out += struct_programs()
     return out
 
 
@@ -402,6 +403,66 @@ def matrix_row_programs():
             k += 1
             out.append((f"matrow:sum:{n}x{m}", f"def mr_{k}(m: Qmatrix[Qint[2], {n}, {m}]) -> Qint[4]:\n\treturn sum(m[{c}])"))
             k += 1
+    return out
+
+
+# ---- tuple `!=` (repaired 6b91624: it meant "every bit differs") and subscript chains that stop at a tuple (repaired
+# 6b971e4: `m[0]` evaluated to the undefined symbol `m.0`) ------------------------------------------------------------------
+def struct_programs():
+    out, k = [], 0
+    # tuple != with bool / Qint / mixed leaves, 1..3 elements (Tuple[bool] alone is refused by the annotation pass)
+    shapes = [("q1", "Tuple[Qint[2]]"), ("bb", "Tuple[bool, bool]"),
+              ("qq", "Tuple[Qint[2], Qint[2]]"), ("bq", "Tuple[bool, Qint[2]]"), ("qb", "Tuple[Qint[2], bool]"),
+              ("bqb", "Tuple[bool, Qint[2], bool]"), ("qqb", "Tuple[Qint[2], Qint[3], bool]"),
+              ("bbb", "Qlist[bool, 3]"), ("ql", "Qlist[Qint[2], 2]")]
+    for n, t in shapes:
+        out.append((f"tupneq:{n}", f"def tn_{k}(a: {t}, b: {t}) -> bool:\n\treturn a != b"))
+        k += 1
+    out.append(("tupneq:lit", f"def tn_{k}(a: Tuple[bool, bool], c: bool, d: bool) -> bool:\n\treturn a != (c, d)"))
+    k += 1
+    out.append(("tupneq:lit-left", f"def tn_{k}(a: Tuple[bool, bool], c: bool) -> bool:\n\treturn (c, not c) != a"))
+    k += 1
+    out.append(("tupneq:in-expr", f"def tn_{k}(a: Tuple[bool, Qint[2]], b: Tuple[bool, Qint[2]], c: bool) -> bool:\n"
+                                  f"\treturn (a != b) and c or (a == b) and not c"))
+    k += 1
+    out.append(("tupneq:ifexp", f"def tn_{k}(a: Tuple[Qint[2], bool], b: Tuple[Qint[2], bool]) -> Qint[2]:\n"
+                                f"\treturn a[0] if a != b else b[0] + 1"))
+    k += 1
+    out.append(("tupneq:if", f"def tn_{k}(a: Tuple[Qint[2], Qint[2]], b: Tuple[Qint[2], Qint[2]]) -> Qint[2]:\n"
+                             f"\tr = 0\n\tif a != b:\n\t\tr = a[1]\n\telse:\n\t\tr = b[0]\n\treturn r"))
+    k += 1
+    out.append(("tupneq:copy", f"def tn_{k}(a: Tuple[bool, Qint[2]], b: Tuple[bool, Qint[2]]) -> bool:\n"
+                               f"\tu = a\n\tv = b\n\treturn u != v"))
+    k += 1
+    # a subscript chain that stops at a tuple: a row of a matrix, an element of a nested tuple / of a list of tuples
+    mats = [("mb22", "Qmatrix[bool, 2, 2]", "Qlist[bool, 2]", "bool", 1),
+            ("mb23", "Qmatrix[bool, 2, 3]", "Qlist[bool, 3]", "bool", 1),
+            ("mq22", "Qmatrix[Qint[2], 2, 2]", "Qlist[Qint[2], 2]", "Qint[2]", 1),
+            ("nest", "Tuple[Tuple[bool, Qint[2]], Tuple[bool, Qint[2]]]", "Tuple[bool, Qint[2]]", "Qint[2]", 1),
+            ("lot", "Qlist[Tuple[Qint[2], bool], 2]", "Tuple[Qint[2], bool]", "Qint[2]", 0)]
+    for n, t, row, leaf, idx in mats:
+        out.append((f"subtup:copy:{n}", f"def st_{k}(m: {t}) -> {leaf}:\n\tr = m[0]\n\treturn r[{idx}]"))
+        k += 1
+        out.append((f"subtup:copy2:{n}", f"def st_{k}(m: {t}) -> {leaf}:\n\tr = m[1]\n\ts = r\n\treturn s[{idx}]"))
+        k += 1
+        out.append((f"subtup:eq:{n}", f"def st_{k}(m: {t}) -> bool:\n\treturn m[0] == m[1]"))
+        k += 1
+        out.append((f"subtup:neq:{n}", f"def st_{k}(m: {t}) -> bool:\n\treturn m[0] != m[1]"))
+        k += 1
+        out.append((f"subtup:ret:{n}", f"def st_{k}(m: {t}) -> {row}:\n\treturn m[0]"))
+        k += 1
+        out.append((f"subtup:ret1:{n}", f"def st_{k}(m: {t}) -> {row}:\n\treturn m[1]"))
+        k += 1
+        out.append((f"subtup:ifexp:{n}", f"def st_{k}(m: {t}, c: bool) -> {row}:\n\treturn m[0] if c else m[1]"))
+        k += 1
+        out.append((f"subtup:pair:{n}", f"def st_{k}(m: {t}) -> Tuple[{row}, {row}]:\n\treturn (m[1], m[0])"))
+        k += 1
+    out.append(("subtup:deep", f"def st_{k}(m: Tuple[Tuple[Tuple[bool, bool], Qint[2]], bool]) -> bool:\n"
+                               f"\tr = m[0]\n\ts = r[0]\n\treturn s[1] and m[1]"))
+    k += 1
+    out.append(("subtup:deep-eq", f"def st_{k}(m: Tuple[Tuple[Tuple[bool, bool], Qint[2]], Tuple[bool, bool]]) -> bool:\n"
+                                  f"\treturn m[0][0] == m[1]"))
+    k += 1
     return out
 
 
